@@ -30,8 +30,8 @@ def body(c):
     gen_cfg = c.path("Gen_Hostile.cfg")
     with open(gen_cfg, "w") as f:
         f.write("CONSTANT Depths = %s\nCONSTANT LightDepths = %s\nCONSTANT Sizes = %s\nCONSTANT Cuts = %s\nCONSTANT SafeDepth = %d\n"
-                "CONSTANT SafeChain = %d\nCONSTANT HeavyTransports = %s\nCONSTANT Dev = {}\nINIT Init\nNEXT Next\nINVARIANT Emit\n"
-                "CONSTRAINT OnlyInit\n" % (tla_set(depths), tla_set(light), tla_set(sizes), tla_set(cuts), SAFE_DEPTH, SAFE_CHAIN, tla_set(heavy)))
+                "CONSTANT SafeChain = %d\nCONSTANT HeavyTransports = %s\nCONSTANT Wide = %s\nCONSTANT Dev = {}\nINIT Init\nNEXT Next\nINVARIANT Emit\n"
+                "CONSTRAINT OnlyInit\n" % (tla_set(depths), tla_set(light), tla_set(sizes), tla_set(cuts), SAFE_DEPTH, SAFE_CHAIN, tla_set(heavy), "FALSE" if c.quick else "TRUE"))
     # ---- M (ideal), M (today's deviations on) and G side by side: 1 + 1 + 2 workers
     # (the two model-checking runs do not gate the harness: they are joined before mode V)
     ex = ThreadPoolExecutor(3)
@@ -96,7 +96,7 @@ def body(c):
         if drift:
             c.drift("case %s/%s k=%s: features of the bytes sent %s differ from the spec's FeatOf" % (o["class"], o["pos"], o["k"], json.dumps(o["feat"])))
     if not c.replay:
-        need = ["marker_nan", "marker_oob", "nest_list", "nest_obj", "nest_sel", "bad_string", "undefined_type", "truncate", "mp_structure",
+        need = ["small_cycle", "block_string", "marker_nan", "marker_oob", "nest_list", "nest_obj", "nest_sel", "bad_string", "undefined_type", "truncate", "mp_structure",
                 "ws_frames", "wrong_kind", "big_number", "benign"] + ["mutation/" + t for t in ("execute", "json", "get", "multipart", "ws")]
         for k in need:
             if not stats.get(k):
@@ -111,7 +111,10 @@ def body(c):
     c.cov["rule"] = ("G: TLC enumerates hostile class x position x size x transport (forged upload markers in 5 positions; list / object / "
                      "selection / type nesting and fragment chains of depths %s; numbers beyond 64 bits in every scalar slot; 16 malformed "
                      "strings incl. lone surrogates; undefined types; huge names and floods of size %s; every input type x every JSON kind; "
-                     "29 malformed documents; hostile request extensions; truncation at %d offsets, invalid UTF-8, malformed GET strings, "
+                     "29 malformed documents; 16 shapes of small fragment-spread cycles that an operation reaches x {strict, fast} validation x "
+                     "{no limits, limit_directives/depth/complexity}; block strings whose lines start with U+00A0 / U+2003 / U+3000 / U+FEFF / "
+                     "U+0085 / 2-, 3-, 4-byte letters after space / tab indents of different widths, beside lines of smaller / bigger indent, as "
+                     "argument value, variable default and input-object field; hostile request extensions; truncation at %d offsets, invalid UTF-8, malformed GET strings, "
                      "request shapes, content types, 38 multipart structures, 25 WebSocket frame sequences x 2 protocols) over "
                      "{Schema::execute, JSON body, GET string, multipart, WebSocket}; the harness adds %d seeded byte-level mutations of "
                      "valid payloads (5 transports); every case runs in a child process on a 2 MiB stack with a %d s budget; "
@@ -127,9 +130,9 @@ def body(c):
     c.assumptions += [
         "a case runs on a fresh thread with a 2 MiB stack (the default of std::thread and of tokio worker threads); the depth at which "
         "recursion exhausts the stack depends on that size; SafeDepth = %d / SafeChain = %d are depths measured to fit" % (SAFE_DEPTH, SAFE_CHAIN),
-        "the deviation triggers are stated over syntactic features of the bytes sent, computed by the harness (marker text present, "
-        "deepest [ / { nesting, number of fragment definitions, a list-typed variable of an undefined type, a multipart part of "
-        "type multipart/*)",
+        "the deviation triggers are stated over syntactic features of the bytes sent, computed by the harness (deepest [ / { nesting "
+        "> %d, number of fragment definitions > %d); small cyclic documents and block strings carry neither" % (SAFE_DEPTH, SAFE_CHAIN),
+        "executable documents have no descriptions in this grammar, so block strings are placed in values only",
         "the byte-level mutation corpus is generated by the seeded harness; TLA+ only classifies its outcomes (DESIGN.md section 6)",
         "WebSocket sessions run against the real schema as executor, polled by hand until quiescent; HTTP bodies are decoded with "
         "receive_body (MultipartOptions: 1 MiB per file, 8 files) and executed with Schema::execute",
